@@ -422,7 +422,7 @@ def units(tier):
             [("fdf", [1, 1], {"attrs": "none"}), ("ff", [2], {"times": "partial", "attrs": "partial"})] if tier == "thorough" else []):
         us.append(Unit("D.extract_to_path[%s]" % RC.shape_name(p, f, o), M, "extract_to_path", dict(pattern=p, folders=f, opts=o), 1800))
     # the thread-parallel branch (multi-folder archive opened by path), workers run one after the other
-    for (p, f, o) in [s_ for s_ in shapes if len(s_[1]) > 1][: (3 if tier == "quick" else 99)] + [("ff", [1, 1], {"packpos": True})]:
+    for (p, f, o) in [s_ for s_ in shapes if len(s_[1]) > 1][: (3 if tier == "quick" else 99)] + [("ff", [1, 1], {"packpos": True}), ("fdf", [1, 0, 1], {})]:
         us.append(Unit("P.extractall_by_path[%s]" % RC.shape_name(p, f, o), M, "extract_all",
                        dict(pattern=p, folders=f, opts=o, unroll=1 if tier == "quick" else 2, by_path=True), 1800))
     return us
